@@ -1,6 +1,10 @@
 import Pfl
-#print axioms Pfl.ENFA.isEmpty_iff
-#print axioms Pfl.ENFA.isDeterministicE_iff
-#print axioms Pfl.ENFA.isDeterministicN_iff
-#print axioms Pfl.ENFA.member_iff
+#print axioms Pfl.ENFA.inter_lang
+#print axioms Pfl.ENFA.mapStates_lang
+#print axioms Pfl.ENFA.reverse_lang
+#print axioms Pfl.ENFA.complementRaw_lang
+#print axioms Pfl.ENFA.complementRaw_lang_dfa
+#print axioms Pfl.ENFA.toDet_lang
+#print axioms Pfl.ENFA.toDet_shape
 #print axioms Pfl.ENFA.langDiff_none_iff
+#print axioms Pfl.ENFA.langDiff_some
